@@ -74,6 +74,8 @@ type oaOp struct {
 	Params []oaParam `json:"params"`
 	Resps  []oaResp  `json:"resps"`
 	Shared []oaParam `json:"shared,omitempty"` // path-item level parameters (the same list on every operation of the path)
+	// Consumes: media types the operation consumes (Swagger 2): the body is imported once per media type
+	Consumes []string `json:"consumes,omitempty"`
 }
 type oaDoc struct {
 	Version int        `json:"version"` // 2 or 3
@@ -157,6 +159,12 @@ func (d oaDoc) render() string {
 		}
 		for _, o := range byPath[p] {
 			b.WriteString("    " + strings.ToLower(o.Method) + ":\n")
+			if len(o.Consumes) > 0 && d.Version == 2 {
+				b.WriteString("      consumes:\n")
+				for _, c := range o.Consumes {
+					b.WriteString("        - " + c + "\n")
+				}
+			}
 			var body *oaParam
 			var others []oaParam
 			for i := range o.Params {
@@ -327,7 +335,14 @@ func oaDocs(tier string) []oaDoc {
 			{Path: "/a/{id}", Method: "DELETE", Params: []oaParam{{Name: "id", In: "path", Kind: "integer", Required: true}}, Resps: []oaResp{{Code: "204", Shape: "none"}}},
 			{Path: "/b", Method: "POST", Params: []oaParam{{Name: "payload", In: "body", Kind: "Other", Required: true}}, Resps: []oaResp{{Code: "201", Shape: "ref"}}},
 		}})
-		// inline-object responses of several operations next to a definition that is an array of inline objects
+		// a body consumed under one, two and three media types (Swagger 2)
+	if v == 2 {
+		for n := 1; n <= 3; n++ {
+			out = append(out, oaDoc{Version: 2, Ops: []oaOp{{Path: "/pets", Method: "POST", Consumes: []string{"application/json", "application/xml", "text/plain"}[:n],
+				Params: []oaParam{{Name: "pet", In: "body", Kind: "Other", Required: true}}, Resps: []oaResp{{Code: "200", Shape: "ref"}}}}})
+		}
+	}
+	// inline-object responses of several operations next to a definition that is an array of inline objects
 	for _, withArr := range []bool{false, true} {
 		if v != 2 {
 			break // the OpenAPI 3 importer wraps responses in a {header, body} type: a different representation
@@ -613,6 +628,19 @@ func checkOADoc(m *sysl.Module, d oaDoc) (problem, class string) {
 		}
 		if n := len(ep.GetRestParams().GetQueryParam()); n != wantCount["query"] {
 			return fmt.Sprintf("%s %s: the operation has %d query parameters but the endpoint has %d", o.Method, o.Path, wantCount["query"], n), "query-param-count"
+		}
+		if len(o.Consumes) > 1 && wantCount["body"] == 1 {
+			gotBody := 0
+			for _, pa := range ep.GetParam() {
+				for _, e := range pa.GetType().GetAttrs()["patterns"].GetA().GetElt() {
+					if e.GetS() == "body" {
+						gotBody++
+					}
+				}
+			}
+			if gotBody != len(o.Consumes) {
+				return fmt.Sprintf("%s %s: the body is consumed as %v but the endpoint has %d body parameter(s)", o.Method, o.Path, o.Consumes, gotBody), "body-per-media-type"
+			}
 		}
 		if gotHeader != wantCount["header"] {
 			return fmt.Sprintf("%s %s: the operation has %d header parameters but the endpoint has %d", o.Method, o.Path, wantCount["header"], gotHeader), "header-param-count"
